@@ -392,6 +392,49 @@ def gen_inputs(key, rng):
     return xs
 
 
+def _pow2(n):
+    return n > 0 and n & (n - 1) == 0
+
+
+def _dy(x):
+    return _pow2(x.denominator) and x.denominator <= 1 << 12 and abs(x.numerator) < 1 << 24
+
+
+def _root(s):
+    """the rational square root of s, or None"""
+    if s < 0:
+        return None
+    a, b = math.isqrt(s.numerator), math.isqrt(s.denominator)
+    return Fraction(a, b) if a * a == s.numerator and b * b == s.denominator else None
+
+
+def in_domain(key, xs):
+    """inputs on which the binary64 arithmetic of the real code is exact, so
+    that its result can be compared exactly (the generator only produces
+    such inputs; shrinking and mutation must stay inside)"""
+    cls, name, shapes = SHAPES[key]
+    if key == 'Mat4.orthogonal_projection':
+        return all(x[1] != x[0] and _pow2(abs(x[1] - x[0]).numerator)
+                   and _pow2(abs(x[1] - x[0]).denominator) for x in (xs[0:2], xs[2:4], xs[4:6]))
+    if key not in ROOT:
+        return True
+    n = SIZES[cls]
+    a = xs[:n]
+    if name == 'distance':
+        a = [x - y for x, y in zip(xs[:n], xs[n:])]
+    s = _dot(a, a)
+    if name == 'limit' and s <= xs[n] * xs[n]:
+        return xs[n] >= 0
+    if not all(_dy(x) for x in xs):
+        return False
+    r = _root(s)
+    if r is None:
+        return False
+    if name in ('__abs__', 'mag', 'distance'):
+        return True
+    return r == 0 or (_pow2(r.numerator) and _pow2(r.denominator))
+
+
 def observe(key, xs):
     """run the real code; -> dict(out=[[n, d]..], warn=bool, cls=str) or dict(exc=...)"""
     try:
@@ -559,7 +602,29 @@ def cmd_search(seed, n, keys):
     return {'tried': tried, 'case': None}
 
 
+def cmd_replay(case):
+    key = case['m']
+    xs = [Fraction(a, b) for a, b in case['args']]
+    ob = observe(key, xs)
+    if 'exc' in ob:
+        return {'trace': ob, 'ok': False}
+    out = [Fraction(a, b) for a, b in ob['out']]
+    if key in TRIG:
+        fx = [float(x) for x in xs]
+        o, w, _ = call_real(key, fx)
+        return {'trace': ob, 'ok': bool(float_ok(key, fx, [float(x) for x in o])) and not w}
+    ok = py_spec(key, xs, out, ob['warn'], Fraction(1, 10 ** 9) if key in ROOT else Fraction(0))
+    if ok and key in ROOT:
+        fx = [float(x) for x in xs]
+        o, w, _ = call_real(key, fx)
+        ok = bool(float_ok(key, fx, [float(x) for x in o])) and not w
+    return {'trace': ob, 'ok': bool(ok)}
+
+
 def main(argv):
+    if argv[0] == 'replay':
+        print(json.dumps(cmd_replay(json.loads(argv[1]))))
+        return 0
     if argv[0] == 'search':
         print(json.dumps(cmd_search(int(argv[1]), int(argv[2]), argv[3:])))
     elif argv[0] == 'floats':
